@@ -849,7 +849,9 @@ func (m *Dense) RankOne(a Matrix, alpha float64, x, y Vector) {
 func (m *Dense) Outer(alpha float64, x, y Vector) {
 	r, c := x.Len(), y.Len()
 
-	m.reuseAsZeroed(r, c)
+	// Every element is written below, after the operands
+	// have been checked for overlap with the receiver.
+	m.reuseAsNonZeroed(r, c)
 
 	var xmat, ymat blas64.Vector
 	fast := true
